@@ -12,6 +12,10 @@ simulate.py and deterministic.py) satisfies the hypotheses of `Pygom.C08.never_s
 * `CompileCanary.trip()` rebinds `self._states` (one flag dict per canary object, not the class-level one shared by
   every model instance)                                                          (`extracted_store_eq_source`)
 
+* every public alias of an evaluator (`ode_T`, `jacobian_T`, `grad_T`, `diff_jacobian_T`, `grad_jacobianT`,
+  `total_transition`) returns its evaluator's compiled object through the evaluator's method, or directly only behind that
+  evaluator's own flag                                                           (`extracted_alias_impl_ok`)
+
 hence `never_stale_extracted`: C08 for the source as its text reads now, every history, every evaluator.
 A mutator that forgets `trip()`, an evaluator missing from the flag list, a second master: one of these
 theorems stops checking (they are closed terms evaluated by the kernel on the generated definitions).
@@ -85,6 +89,32 @@ theorem never_stale_pair_extracted {V} (sem : Sem V) (dA dB : ModelDef) (pvA pvB
   rw [extracted_store_per_instance]
   exact never_stale_pair extractedCfg extracted_good sem dA dB pvA pvB ops
     (fun _ _ e _ _ _ => extracted_watches_all e)
+
+/-! ### secondary entry points, as the text of deterministic.py / simulate.py reads now -/
+
+/-- every alias the model knows is in the text, and returns the compiled object of the evaluator the model says -/
+theorem extracted_aliases_complete :
+    ∀ a : Alias, (extractedAliases.lookup a.name).map (fun p => p.1) = some a.target.name := by
+  intro a; cases a <;> decide
+
+/-- every alias extracted is one the model knows; a guard, where there is one, names an evaluator -/
+theorem extracted_aliases_modelled :
+    ∀ p ∈ extractedAliases, (Alias.ofName? p.1).isSome = true ∧ ∀ g, p.2.2 = some g → (Ev.ofName? g).isSome = true := by
+  decide
+
+/-- **every alias goes through its evaluator's method, or calls `<target>Compiled` directly only behind the target's OWN
+flag.**  A fast path behind another evaluator's flag (`jacobian_T` short-cut while the master canary `ode` is alive)
+makes this theorem fail to check. -/
+theorem extracted_alias_impl_ok : AliasOk extractedAliasImpl := by
+  intro a; cases a <;> decide
+
+/-- **C08 through the secondary entry points, for the source as its text reads now**: every history of mutators,
+parameter assignments, evaluations and alias calls (`ode_T`, `jacobian_T`, `grad_T`, `diff_jacobian_T`, `grad_jacobianT`,
+`total_transition`), every observation. -/
+theorem never_stale_extracted_aliases {V} (sem : Sem V) (d0 : ModelDef) (pv0 : List Rat) (ops : List AOp) :
+    ∀ o ∈ arun extractedCfg extractedAliasImpl (cinit extractedCfg d0 pv0) ops,
+      o.value sem = freshValue extractedCfg sem o.cur o.pvals o.ev o.x o.t :=
+  never_stale_aliases extractedCfg extracted_good extracted_watches_all extractedAliasImpl extracted_alias_impl_ok sem d0 pv0 ops
 
 /-- non-vacuity: the extracted tables are not empty -/
 example : extractedWatched.length ≥ 12 ∧ extractedRegistered.length ≥ 12 := by decide
